@@ -251,6 +251,9 @@ func (this *RLT) Forward(src, dst []byte) (uint, uint, error) {
 					dstIdx++
 					run--
 				}
+			} else {
+				// The pending byte does not fit: never drop it silently
+				err = errors.New("RLT forward transform skip: output buffer is too small")
 			}
 		} else { // escape literal
 			if dstIdx+2*run < dstEnd {
@@ -260,9 +263,13 @@ func (this *RLT) Forward(src, dst []byte) (uint, uint, error) {
 					dstIdx += 2
 					run--
 				}
+			} else {
+				err = errors.New("RLT forward transform skip: output buffer is too small")
 			}
 		}
+	}
 
+	if err == nil {
 		// Emit the last few bytes
 		for srcIdx < srcEnd && dstIdx < dstEnd {
 			if src[srcIdx] == escape {
